@@ -56,6 +56,17 @@ def scenarios(ctx):
         for ts_type in (0, 1):
             p = dict(base_f, **m, batching="multi", baseline="app", program=[[(0, T), (0, T + 3), (0, T + 1)]], ts_type=ts_type, send_batch=True)
             out.append((f"sendbatch-{mname}-ts{ts_type}", p, [{"r": 1, "f": 1}] if quick else QUICK_B))
+    # send_batch() with a still open builder followed by send() to the same partition before the batch is drained
+    # (the send()'s record joins the batch: its relative offset is not its index among the per-record futures)
+    for mname, m in (("idem", {"idempotent": True}), ("acks1", {"acks": 1})):
+        p = dict(base_f, **m, batching="multi", baseline="app", program=[[(0, T), (0, T + 3)], [(0, T + 1), (0, T + 2)]], send_batch=[0])
+        out.append((f"mixed-batch-send-{mname}", p, [{"r": 1, "f": 1}, {"p": 1}] if quick else QUICK_B))
+    # send() parked on a full batch (long linger, small batch) while flush()/stop() are placed around it
+    for mname, m in (("idem", {"idempotent": True}), ("acks1", {"acks": 1})):
+        for base in (("app",) if quick else ("app", "net")):
+            p = dict(base_f, **m, batching="multi", baseline=base, max_batch_size=220, linger_ms=300, value_pad=60,
+                     program=[[(0, T), (0, T + 1), (0, T + 2)], [(0, T + 3), (1, T + 4)]], flush_gate=True, stop_gate=True)
+            out.append((f"parked-send-{mname}-{base}", p, [{"k": 1, "r": 1}] if quick else THOROUGH_B))
     return out
 
 
